@@ -1187,14 +1187,12 @@ archive_write_pax_header(struct archive_write *a,
 	 * them in full pax format.
 	 */
 	if (a->archive.archive_format != ARCHIVE_FORMAT_TAR_PAX_RESTRICTED) {
-		if (archive_entry_ctime(entry_main) != 0  ||
-		    archive_entry_ctime_nsec(entry_main) != 0)
+		if (archive_entry_ctime_is_set(entry_main))
 			add_pax_attr_time(&(pax->pax_header), "ctime",
 			    archive_entry_ctime(entry_main),
 			    archive_entry_ctime_nsec(entry_main));
 
-		if (archive_entry_atime(entry_main) != 0 ||
-		    archive_entry_atime_nsec(entry_main) != 0)
+		if (archive_entry_atime_is_set(entry_main))
 			add_pax_attr_time(&(pax->pax_header), "atime",
 			    archive_entry_atime(entry_main),
 			    archive_entry_atime_nsec(entry_main));
